@@ -1,21 +1,21 @@
 """E3 - decision lists and templates: abstract interpretation in the constant-propagation domain.
 
-`BlockEval` pushes ONE element of a finite domain (an attribute key/value, an SGR code, a config key name, a
-valuation of named atoms) through a function body that is a decision list over compile-time tables: `if` chains whose
-tests fold to constants, assignments of foldable values to locals, appends/updates of local containers, and
-return/raise/continue/break.  A test that does not fold is an *unknown atom*: both branches are explored and the
-atom is recorded in the outcome's assumptions, so the caller can report "the decision depends on something other than
-the table entry".  Anything outside this subset makes the outcome `opaque` (fail-closed), never a guess.
+`BlockEval` pushes ONE element of a finite domain (an attribute key/value, an SGR code, a config key name ...) through
+a function body: `if` chains whose tests fold to constants, assignments (containers are mutated in place, as Python
+does, so aliasing is modelled), loops over constant iterables (with break/continue/else), bounded `while`, try/except
+with an exception-class lattice, nested function definitions (closures), generators (yield collects), and
+return/raise.  A test that does not fold is an *unknown atom*: both branches are explored (the state is deep-copied)
+and the atom is recorded in the outcome's assumptions.  Anything outside this subset makes the outcome `opaque`
+(fail-closed), never a guess.
 
-No code of curtsies is executed by the Python interpreter; expressions are folded by sa.consteval.Folder.
+No code of curtsies is executed by the Python interpreter; expressions are folded by sa.consteval.Folder (or its
+object-aware subclass in sa.objinterp).
 """
 import ast
+import copy
 
-from .consteval import Folder, SymStr, TOP, Unknown
+from .consteval import Folder, SymStr, TOP, Unknown, _BINOPS
 from .report import AnalysisError
-
-
-_COW_CACHE = {}
 
 
 class Outcome:
@@ -33,17 +33,51 @@ class Outcome:
         return "<%s %r assume=%s%s>" % (self.term, self.value, self.assumptions, " OPAQUE:%s" % self.opaque if self.opaque else "")
 
 
+class FoldedRaise(Exception):
+    """The modelled code raised (explicitly or implicitly) the exception class `name`."""
+
+    def __init__(self, name, where=""):
+        Exception.__init__(self, "%s raised in %s" % (name, where))
+        self.name = name
+
+
+class LocalFunc:
+    """A function defined inside a function being interpreted (closure over the defining environment)."""
+
+    def __init__(self, node, env):
+        self.node, self.env = node, env
+
+    def __deepcopy__(self, memo):
+        return self
+
+
+def _is_generator(fnode):
+    stack = list(fnode.body)
+    while stack:
+        n = stack.pop()
+        if isinstance(n, (ast.Yield, ast.YieldFrom)):
+            return True
+        if isinstance(n, (ast.FunctionDef, ast.AsyncFunctionDef, ast.Lambda, ast.ClassDef)):
+            continue
+        stack.extend(ast.iter_child_nodes(n))
+    return False
+
+
 class BlockEval:
+    WHILE_BOUND = 20000
+
     def __init__(self, folder, max_states=256, atom_oracle=None, call_hook=None):
         self.folder = folder
         self.max_states = max_states
         self.atom_oracle = atom_oracle    # fn(test_node, env) -> bool | None : decide named atoms
-        self.call_hook = call_hook        # fn(call_node, env) -> value | raises Unknown
+        self.call_hook = call_hook        # legacy: fn(call_node, env) -> value | raises Unknown
 
     # a state is (env, assumptions, effects)
     def run(self, stmts, env):
         outs = []
-        self._block(stmts, [(dict(env), [], [])], outs)
+        falls = self._block(stmts, [(dict(env), [], [])], outs)
+        for e, a, f in falls:
+            outs.append(Outcome("fall", None, e, a, f))
         return outs
 
     def _block(self, stmts, states, outs):
@@ -64,6 +98,26 @@ class BlockEval:
         if self.call_hook is not None:
             return _fold_with_hook(self.folder, node, env, self.call_hook)
         return self.folder.expr(node, env)
+
+    # ---- forking -----------------------------------------------------------------------
+    def _fork(self, state):
+        env, assume, eff = state
+        memo = {}
+        modconst = getattr(self.folder, "mods", {})
+        shared = set()
+        for m in modconst.values():
+            for v in m.values():
+                shared.add(id(v))
+        new = {}
+        for k, v in env.items():
+            if id(v) in shared or isinstance(v, (str, bytes, int, float, bool, type(None), tuple)) and not isinstance(v, tuple):
+                new[k] = v
+            else:
+                try:
+                    new[k] = copy.deepcopy(v, memo)
+                except Exception:
+                    new[k] = v
+        return (new, list(assume), list(eff))
 
     def _test(self, test, state):
         """[(bool, state')] for the possible values of a test in a state."""
@@ -92,68 +146,49 @@ class BlockEval:
             return [(not v, s) for v, s in self._test(test.operand, state)]
         try:
             v = self._fold(test, env)
-            if isinstance(v, SymStr) or v is TOP:
-                raise Unknown("truth value of symbolic text")
-            return [(bool(v), state)]
+            return [(self.folder.v_truth(v), state)]
         except Unknown:
             pass
         txt = ast.unparse(test)
         for t, v in assume:
             if t == txt:
                 return [(v, state)]
-        return [(True, (env, assume + [(txt, True)], eff)), (False, (env, assume + [(txt, False)], eff))]
+        other = self._fork(state)
+        return [(True, (env, assume + [(txt, True)], eff)), (False, (other[0], other[1] + [(txt, False)], other[2]))]
 
-    @staticmethod
-    def _cow(st, env):
-        """Copy-on-write: containers bound to names that this statement may mutate in place are copied first, so that
-        sibling states and memoised inputs never share a mutated object."""
-        from .consteval import MUTATORS
-        names = _COW_CACHE.get(id(st))
-        if names is None:
-            names = _COW_CACHE[id(st)] = BlockEval._cow_names(st, MUTATORS)
-        if not names:
-            return env
-        env = dict(env)
-        for nm in names:
-            v = env.get(nm)
-            if isinstance(v, list):
-                env[nm] = list(v)
-            elif isinstance(v, dict):
-                env[nm] = dict(v)
-            elif isinstance(v, set):
-                env[nm] = set(v)
-        return env
-
-    @staticmethod
-    def _cow_names(st, MUTATORS):
-        names = set()
-        for n in ast.walk(st):
-            if isinstance(n, ast.Call) and isinstance(n.func, ast.Attribute) and n.func.attr in MUTATORS and \
-                    isinstance(n.func.value, ast.Name):
-                names.add(n.func.value.id)
-            if isinstance(n, ast.Subscript) and isinstance(n.ctx, (ast.Store, ast.Del)) and isinstance(n.value, ast.Name):
-                names.add(n.value.id)
-            if isinstance(n, ast.AugAssign) and isinstance(n.target, ast.Name):
-                names.add(n.target.id)
-        return frozenset(names)
+    # ---- statements ----------------------------------------------------------------------
+    def _raise_out(self, outs, e, state, what):
+        env, assume, eff = state
+        outs.append(Outcome("raise", getattr(e, "name", type(e).__name__), env, assume, eff + [("implicit-raise", what)]))
 
     def _stmt(self, st, state, outs):
         env, assume, eff = state
-        if not isinstance(st, (ast.If, ast.For, ast.While, ast.Try, ast.With)):
-            env = self._cow(st, env)
-            state = (env, assume, eff)
+        try:
+            return self._stmt_inner(st, state, outs)
+        except (Unknown,) as e:
+            outs.append(Outcome("fall", None, env, assume, eff, "%s: %s" % (type(st).__name__, e)))
+            return []
+        except AnalysisError:
+            raise
+        except RecursionError:
+            raise AnalysisError("recursion limit while evaluating %s" % ast.unparse(st)[:80])
+        except FoldedRaise as e:
+            self._raise_out(outs, e, state, ast.unparse(st)[:80])
+            return []
+
+    def _stmt_inner(self, st, state, outs):
+        env, assume, eff = state
         if isinstance(st, ast.If):
             res = []
             try:
                 branches = self._test(st.test, state)
-            except AnalysisError:
+            except (Unknown, AnalysisError, FoldedRaise):
                 raise
             except Exception as e:
-                outs.append(Outcome("raise", getattr(e, "name", type(e).__name__), env, assume,
-                                    eff + [("implicit-raise", ast.unparse(st.test))]))
+                self._raise_out(outs, e, state, ast.unparse(st.test))
                 return []
             for val, s2 in branches:
-                res.extend(self._block(st.body if val else st.orelse, [(dict(s2[0]), list(s2[1]), list(s2[2]))], outs))
+                res.extend(self._block(st.body if val else st.orelse, [s2], outs))
             return res
         if isinstance(st, ast.Return):
             val = None
@@ -163,10 +198,10 @@ class BlockEval:
                     val = self._fold(st.value, env)
                 except Unknown as e:
                     val, opaque = TOP, "return value `%s`: %s" % (ast.unparse(st.value)[:60], e)
-                except AnalysisError:
+                except (AnalysisError, FoldedRaise):
                     raise
                 except Exception as e:
-                    outs.append(Outcome("raise", getattr(e, 'name', type(e).__name__), env, assume, eff + [("implicit-raise", ast.unparse(st.value))]))
+                    self._raise_out(outs, e, state, ast.unparse(st.value))
                     return []
             outs.append(Outcome("return", val, env, assume, eff, opaque))
             return []
@@ -175,6 +210,10 @@ class BlockEval:
             if st.exc is not None:
                 e = st.exc.func if isinstance(st.exc, ast.Call) else st.exc
                 name = ast.unparse(e)
+                if isinstance(st.exc, ast.Name) and st.exc.id in env and isinstance(env[st.exc.id], str):
+                    name = env[st.exc.id]
+            else:
+                name = env.get("__exc__")
             outs.append(Outcome("raise", name, env, assume, eff))
             return []
         if isinstance(st, ast.Continue):
@@ -203,234 +242,276 @@ class BlockEval:
                 v = self._fold(st.value, env)
             except Unknown:
                 v = TOP
-            except AnalysisError:
+            except (AnalysisError, FoldedRaise):
                 raise
             except Exception as e:
-                outs.append(Outcome("raise", getattr(e, 'name', type(e).__name__), env, assume, eff + [("implicit-raise", ast.unparse(st.value))]))
+                self._raise_out(outs, e, state, ast.unparse(st.value))
                 return []
             targets = st.targets if isinstance(st, ast.Assign) else [st.target]
-            env = dict(env)
             for t in targets:
                 try:
-                    if isinstance(t, ast.Subscript):
-                        # store into a local container: copy-on-write so sibling states are not affected
-                        if isinstance(t.value, ast.Name) and t.value.id in env and isinstance(env[t.value.id], (dict, list)):
-                            c = env[t.value.id]
-                            c = dict(c) if isinstance(c, dict) else list(c)
-                            if v is TOP:
-                                raise Unknown("store of unknown value")
-                            c[self._fold(t.slice, env)] = v
-                            env[t.value.id] = c
-                        else:
-                            raise Unknown("subscript store")
-                    else:
-                        self.folder.assign(t, v, env)
+                    self.folder.assign(t, v, env)
                 except Unknown as e:
                     for n in ast.walk(t):
                         if isinstance(n, ast.Name):
                             env[n.id] = TOP
                     eff = eff + [("opaque-store", ast.unparse(st)[:80])]
-            return [(env, assume, eff)]
-        if isinstance(st, ast.AugAssign) and isinstance(st.target, ast.Name):
-            env = dict(env)
-            try:
-                cur = self._fold(ast.Name(id=st.target.id, ctx=ast.Load()), env)
-                rhs = self._fold(st.value, env)
-                from .consteval import _BINOPS
-                env[st.target.id] = _BINOPS[type(st.op)](cur, rhs)
-            except Unknown:
-                env[st.target.id] = TOP
-            except Exception:
-                env[st.target.id] = TOP
-            return [(env, assume, eff)]
-        if isinstance(st, ast.Delete):
-            env = dict(env)
-            for t in st.targets:
-                if isinstance(t, ast.Subscript) and isinstance(t.value, ast.Name) and isinstance(env.get(t.value.id), dict):
-                    try:
-                        c = dict(env[t.value.id])
-                        del c[self._fold(t.slice, env)]
-                        env[t.value.id] = c
-                        continue
-                    except Exception:
-                        pass
-                for n in ast.walk(t):
-                    if isinstance(n, ast.Name):
-                        env[n.id] = TOP
-            return [(env, assume, eff)]
-        if isinstance(st, ast.Expr) and isinstance(st.value, ast.Call):
-            c = st.value
-            # mutation of a local container with foldable arguments
-            from .consteval import MUTATORS as _MUT
-            if isinstance(c.func, ast.Attribute) and isinstance(c.func.value, ast.Name) and c.func.value.id in env and \
-                    isinstance(env[c.func.value.id], (list, dict, set)) and c.func.attr in _MUT:
-                env = dict(env)
-                cont = env[c.func.value.id]
-                cont = list(cont) if isinstance(cont, list) else dict(cont) if isinstance(cont, dict) else set(cont)
-                try:
-                    args = [self._fold(a, env) for a in c.args]
-                    kw = {k.arg: self._fold(k.value, env) for k in c.keywords if k.arg}
-                    getattr(cont, c.func.attr)(*args, **kw)
-                    env[c.func.value.id] = cont
-                except Unknown:
-                    env[c.func.value.id] = TOP
-                    eff = eff + [("opaque-mutation", ast.unparse(c)[:80])]
-                except AnalysisError:
+                except (AnalysisError, FoldedRaise):
                     raise
                 except Exception as e:
-                    outs.append(Outcome("raise", getattr(e, "name", type(e).__name__), env, assume,
-                                        eff + [("implicit-raise", ast.unparse(c))]))
+                    self._raise_out(outs, e, state, ast.unparse(st)[:80])
                     return []
-                return [(env, assume, eff)]
+            return [(env, assume, eff)]
+        if isinstance(st, ast.AugAssign):
+            load = _as_load(st.target)
             try:
-                self._fold(c, env)
-                return [state]
+                cur = self._fold(load, env)
+                rhs = self._fold(st.value, env)
+                if isinstance(cur, list) and isinstance(st.op, ast.Add):
+                    cur.extend(self.folder.v_iter(rhs))         # in place, like list.__iadd__
+                    return [state]
+                if isinstance(cur, list) and isinstance(st.op, ast.Mult):
+                    cur[:] = cur * rhs
+                    return [state]
+                if isinstance(cur, (dict, set)) and isinstance(st.op, ast.BitOr):
+                    cur.update(rhs)
+                    return [state]
+                new = self.folder.v_iop(st.op, cur, rhs) if hasattr(self.folder, "v_iop") else self.folder.v_binop(st.op, cur, rhs)
+                self.folder.assign(st.target, new, env)
             except Unknown:
-                return [(env, assume, eff + [("call", ast.unparse(c)[:100])])]
-            except AnalysisError:
+                for n in ast.walk(st.target):
+                    if isinstance(n, ast.Name):
+                        env[n.id] = TOP
+                eff = eff + [("opaque-store", ast.unparse(st)[:80])]
+            except (AnalysisError, FoldedRaise):
                 raise
             except Exception as e:
-                outs.append(Outcome("raise", getattr(e, 'name', type(e).__name__), env, assume, eff + [("implicit-raise", ast.unparse(c))]))
+                self._raise_out(outs, e, state, ast.unparse(st)[:80])
                 return []
-        if isinstance(st, (ast.For,)):
+            return [(env, assume, eff)]
+        if isinstance(st, ast.Delete):
+            for t in st.targets:
+                try:
+                    if isinstance(t, ast.Subscript):
+                        base = self._fold(t.value, env)
+                        idx = self.folder._index(t, env) if hasattr(self.folder, "_index") else self._fold(t.slice, env)
+                        if isinstance(base, (dict, list)):
+                            del base[idx]
+                            continue
+                        if hasattr(self.folder, "del_item"):
+                            self.folder.del_item(base, idx)
+                            continue
+                    elif isinstance(t, ast.Name):
+                        env.pop(t.id, None)
+                        continue
+                    raise Unknown("delete target")
+                except Unknown:
+                    for n in ast.walk(t):
+                        if isinstance(n, ast.Name):
+                            env[n.id] = TOP
+                except (AnalysisError, FoldedRaise):
+                    raise
+                except Exception as e:
+                    self._raise_out(outs, e, state, ast.unparse(st)[:80])
+                    return []
+            return [state]
+        if isinstance(st, ast.Expr) and isinstance(st.value, (ast.Yield, ast.YieldFrom)):
+            y = st.value
             try:
-                it = list(self._fold(st.iter, env))
-            except Exception:
-                outs.append(Outcome("fall", None, env, assume, eff, "loop over a non-constant iterable `%s`" % ast.unparse(st.iter)[:60]))
+                v = self._fold(y.value, env) if y.value is not None else None
+            except Unknown:
+                v = TOP
+            acc = env.setdefault("__yield__", [])
+            if isinstance(y, ast.YieldFrom):
+                acc.extend(self.folder.v_iter(v))
+            else:
+                acc.append(v)
+            return [state]
+        if isinstance(st, ast.Expr):
+            try:
+                self._fold(st.value, env)
+                return [state]
+            except Unknown:
+                return [(env, assume, eff + [("call", ast.unparse(st.value)[:100])])]
+            except (AnalysisError, FoldedRaise):
+                raise
+            except Exception as e:
+                self._raise_out(outs, e, state, ast.unparse(st.value)[:80])
+                return []
+        if isinstance(st, ast.For):
+            try:
+                it = self.folder.v_iter(self._fold(st.iter, env))
+            except Unknown as e:
+                outs.append(Outcome("fall", None, env, assume, eff, "loop over a non-constant iterable `%s`: %s" % (ast.unparse(st.iter)[:60], e)))
                 return []
             cur = [state]
+            broke = []
             for x in it:
                 nxt = []
                 for s in cur:
-                    e2 = dict(s[0])
                     try:
-                        self.folder.assign(st.target, x, e2)
+                        self.folder.assign(st.target, x, s[0])
                     except Unknown:
                         raise AnalysisError("loop target")
                     inner_outs = []
-                    fall = self._block(st.body, [(e2, list(s[1]), list(s[2]))], inner_outs)
+                    fall = self._block(st.body, [s], inner_outs)
                     for o in inner_outs:
                         if o.term == "continue":
                             fall.append((o.env, o.assumptions, o.effects))
                         elif o.term == "break":
-                            outs.append(Outcome("fall", None, o.env, o.assumptions, o.effects, "break inside folded loop"))
+                            broke.append((o.env, o.assumptions, o.effects))
                         else:
                             outs.append(o)
                     nxt.extend(fall)
                 cur = nxt
-            return cur
+                if not cur:
+                    break
+            if st.orelse and cur:
+                cur = self._block(st.orelse, cur, outs)
+            return cur + broke
+        if isinstance(st, ast.While):
+            cur = [state]
+            done = []
+            n = 0
+            while cur:
+                n += 1
+                if n > self.WHILE_BOUND:
+                    raise AnalysisError("while loop exceeds %d iterations in the evaluator" % self.WHILE_BOUND)
+                nxt = []
+                for s in cur:
+                    br = self._test(st.test, s)
+                    if len(br) > 1:
+                        outs.append(Outcome("fall", None, s[0], s[1], s[2], "while condition `%s` is not decidable" % ast.unparse(st.test)[:60]))
+                        continue
+                    val, s2 = br[0]
+                    if not val:
+                        done.extend(self._block(st.orelse, [s2], outs) if st.orelse else [s2])
+                        continue
+                    inner_outs = []
+                    fall = self._block(st.body, [s2], inner_outs)
+                    for o in inner_outs:
+                        if o.term == "continue":
+                            fall.append((o.env, o.assumptions, o.effects))
+                        elif o.term == "break":
+                            done.append((o.env, o.assumptions, o.effects))
+                        else:
+                            outs.append(o)
+                    nxt.extend(fall)
+                cur = nxt
+            return done
+        if isinstance(st, ast.With):
+            for item in st.items:
+                try:
+                    cm = self._fold(item.context_expr, env)
+                    entered = self.folder.enter_context(cm) if hasattr(self.folder, "enter_context") else TOP
+                except Unknown:
+                    entered = TOP
+                    eff = eff + [("with", ast.unparse(item.context_expr)[:80])]
+                if item.optional_vars is not None:
+                    try:
+                        self.folder.assign(item.optional_vars, entered, env)
+                    except Unknown:
+                        pass
+            return self._block(st.body, [(env, assume, eff)], outs)
         if isinstance(st, ast.Try):
-            # explicit handlers only matter for raises produced inside the body
             inner = []
             fall = self._block(st.body, [state], inner)
-            res = list(fall)
+            res = self._block(st.orelse, fall, inner) if st.orelse else list(fall)
+            pending = []
             for o in inner:
                 if o.term == "raise":
                     h = _matching_handler(st.handlers, o.value)
                     if h is not None:
-                        res.extend(self._block(h.body, [(o.env, o.assumptions, o.effects)], outs))
+                        henv = o.env
+                        henv["__exc__"] = o.value
+                        if h.name:
+                            henv[h.name] = o.value
+                        hout = []
+                        res.extend(self._block(h.body, [(henv, o.assumptions, o.effects)], hout))
+                        pending.extend(hout)
                         continue
-                outs.append(o)
-            if st.orelse:
-                res = self._block(st.orelse, res, outs)
+                pending.append(o)
             if st.finalbody:
                 res = self._block(st.finalbody, res, outs)
+                for o in pending:
+                    fo = []
+                    ff = self._block(st.finalbody, [(o.env, o.assumptions, o.effects)], fo)
+                    outs.extend(fo)
+                    if ff:
+                        outs.append(o)
+            else:
+                outs.extend(pending)
             return res
-        if isinstance(st, (ast.FunctionDef, ast.ClassDef, ast.Import, ast.ImportFrom, ast.Global, ast.Nonlocal)):
+        if isinstance(st, (ast.FunctionDef,)):
+            env[st.name] = LocalFunc(st, env)
+            return [state]
+        if isinstance(st, (ast.Import, ast.ImportFrom)):
+            from .consteval import Opaque
+            for a in st.names:
+                nm = (a.asname or a.name).split(".")[0]
+                if nm not in env:
+                    env[nm] = Opaque("module %s" % a.name)
+            return [state]
+        if isinstance(st, (ast.ClassDef, ast.Global, ast.Nonlocal)):
             return [state]
         outs.append(Outcome("fall", None, env, assume, eff, "statement %s outside the decision-list subset" % type(st).__name__))
         return []
 
-    def finish(self, falls, outs):
-        for env, assume, eff in falls:
-            outs.append(Outcome("fall", None, env, assume, eff))
-        return outs
-
     def run_function(self, fnode, env):
-        body = [s for s in fnode.body]
+        gen = _is_generator(fnode)
+        if gen:
+            env["__yield__"] = []
         outs = []
-        falls = self._block(body, [(dict(env), [], [])], outs)
+        falls = self._block(list(fnode.body), [(env, [], [])], outs)
         for env2, assume, eff in falls:
             outs.append(Outcome("return", None, env2, assume, eff))
+        if gen:
+            for o in outs:
+                if o.term == "return":
+                    o.value = list(o.env.get("__yield__", []))
         return outs
 
 
-class FoldedRaise(Exception):
-    """An inlined callee raised (explicitly or implicitly) the exception class `name`."""
+_EXC_PARENTS = {
+    "UnicodeDecodeError": ("UnicodeError", "ValueError", "Exception", "BaseException"),
+    "UnicodeEncodeError": ("UnicodeError", "ValueError", "Exception", "BaseException"),
+    "KeyError": ("LookupError", "Exception", "BaseException"),
+    "IndexError": ("LookupError", "Exception", "BaseException"),
+    "ValueError": ("Exception", "BaseException"),
+    "TypeError": ("Exception", "BaseException"),
+    "AttributeError": ("Exception", "BaseException"),
+    "AssertionError": ("Exception", "BaseException"),
+    "NotImplementedError": ("RuntimeError", "Exception", "BaseException"),
+    "ZeroDivisionError": ("ArithmeticError", "Exception", "BaseException"),
+    "OSError": ("Exception", "BaseException"),
+    "StopIteration": ("Exception", "BaseException"),
+    "BlockingIOError": ("OSError", "Exception", "BaseException"),
+    "InterruptedError": ("OSError", "Exception", "BaseException"),
+}
 
-    def __init__(self, name, where=""):
-        Exception.__init__(self, "%s raised in %s" % (name, where))
-        self.name = name
+
+def exception_matches(handler_type, raised):
+    if handler_type is None:
+        return True
+    if isinstance(handler_type, ast.Tuple):
+        names = [ast.unparse(e) for e in handler_type.elts]
+    else:
+        names = [ast.unparse(handler_type)]
+    if raised is None:
+        return False
+    raised = str(raised).split(".")[-1]
+    for n in names:
+        n = n.split(".")[-1]
+        if n == raised or n in _EXC_PARENTS.get(raised, ("Exception", "BaseException")):
+            return True
+    return False
 
 
-class Interp(BlockEval):
-    """BlockEval that inlines calls of package functions (bounded depth) and models constructor calls of named
-    classes as tagged tuples.  An inlined call must have exactly one outcome (no unknown atoms); otherwise Unknown."""
-
-    def __init__(self, folder, classes=(), depth=4, max_states=256, extra_hook=None, atom_oracle=None):
-        BlockEval.__init__(self, folder, max_states=max_states, atom_oracle=atom_oracle, call_hook=self._hook)
-        self.classes = set(classes)
-        self.depth = depth
-        self._level = 0
-        self.extra_hook = extra_hook
-        self.inlined = set()
-
-    def _hook(self, call, env):
-        from .consteval import FuncRef, Opaque
-        if self.extra_hook is not None:
-            try:
-                return self.extra_hook(call, env)
-            except Unknown:
-                pass
-        if isinstance(call.func, ast.Name) and call.func.id == "cast" and len(call.args) == 2:
-            return self.folder.expr(call.args[1], env)
-        try:
-            f = self.folder.expr(call.func, env)
-        except Unknown:
-            # Name bound to an opaque object
-            f = env.get(call.func.id) if isinstance(call.func, ast.Name) else None
-            if f is None:
-                raise
-        if isinstance(f, Opaque) and not isinstance(f, FuncRef) and f.what.startswith("ClassDef ") and \
-                f.what.split()[1] in self.classes:
-            args, kw = self._args(call, env)
-            return ("<%s>" % f.what.split()[1],) + tuple(args) + tuple(sorted(kw.items()))
-        if not isinstance(f, FuncRef) or f.simple_return() is not None:
-            raise Unknown("not an inlinable function")
-        if self._level >= self.depth:
-            raise Unknown("inlining depth")
-        args, kw = self._args(call, env)
-        cenv = dict(self.folder.module(f.mod))
-        bind_arguments(self.folder, f.node, args, kw, cenv)
-        self._level += 1
-        try:
-            outs = self.run_function(f.node, cenv)
-        finally:
-            self._level -= 1
-        self.inlined.add(f.name)
-        if len(outs) != 1 or outs[0].assumptions or outs[0].opaque:
-            raise Unknown("inlined call of %s has %d outcomes / unknown atoms: %s" % (f.name, len(outs), outs[:3]))
-        o = outs[0]
-        if o.term == "raise":
-            raise FoldedRaise(o.value, f.name)
-        if o.value is TOP:
-            raise Unknown("inlined call returns unknown")
-        return o.value
-
-    def _args(self, call, env):
-        args = []
-        for a in call.args:
-            if isinstance(a, ast.Starred):
-                args.extend(self._fold(a.value, env))
-            else:
-                args.append(self._fold(a, env))
-        kw = {}
-        for k in call.keywords:
-            if k.arg is None:
-                kw.update(self._fold(k.value, env))
-            else:
-                kw[k.arg] = self._fold(k.value, env)
-        return args, kw
+def _matching_handler(handlers, raised):
+    for h in handlers:
+        if exception_matches(h.type, raised):
+            return h
+    return None
 
 
 def bind_arguments(folder, fnode, args, kw, env):
@@ -440,6 +521,8 @@ def bind_arguments(folder, fnode, args, kw, env):
     kw = dict(kw)
     for i, nm in enumerate(names):
         if i < len(args):
+            if nm in kw:
+                raise FoldedRaise("TypeError", "multiple values for argument %s" % nm)
             env[nm] = args[i]
         elif nm in kw:
             env[nm] = kw.pop(nm)
@@ -465,49 +548,8 @@ def bind_arguments(folder, fnode, args, kw, env):
         raise FoldedRaise("TypeError", "unexpected keyword %s" % sorted(kw))
 
 
-_EXC_PARENTS = {
-    "UnicodeDecodeError": ("UnicodeError", "ValueError", "Exception", "BaseException"),
-    "UnicodeEncodeError": ("UnicodeError", "ValueError", "Exception", "BaseException"),
-    "KeyError": ("LookupError", "Exception", "BaseException"),
-    "IndexError": ("LookupError", "Exception", "BaseException"),
-    "ValueError": ("Exception", "BaseException"),
-    "TypeError": ("Exception", "BaseException"),
-    "AttributeError": ("Exception", "BaseException"),
-    "AssertionError": ("Exception", "BaseException"),
-    "NotImplementedError": ("RuntimeError", "Exception", "BaseException"),
-    "ZeroDivisionError": ("ArithmeticError", "Exception", "BaseException"),
-    "OSError": ("Exception", "BaseException"),
-}
-
-
-def exception_matches(handler_type, raised):
-    if handler_type is None:
-        return True
-    names = []
-    if isinstance(handler_type, ast.Tuple):
-        names = [ast.unparse(e) for e in handler_type.elts]
-    else:
-        names = [ast.unparse(handler_type)]
-    if raised is None:
-        return False
-    raised = raised.split(".")[-1]
-    for n in names:
-        n = n.split(".")[-1]
-        if n == raised or n in _EXC_PARENTS.get(raised, ("Exception", "BaseException")):
-            return True
-    return False
-
-
-def _matching_handler(handlers, raised):
-    for h in handlers:
-        if exception_matches(h.type, raised):
-            return h
-    return None
-
-
 def _fold_with_hook(folder, node, env, hook):
-    """Fold an expression letting `hook` decide calls the folder cannot (e.g. named atoms like decodable(seq, enc))."""
-    # light-weight: temporarily wrap folder.expr for Call nodes
+    """Fold an expression letting `hook` decide calls the folder cannot (legacy interface)."""
     orig = folder.expr
 
     def expr(n, e):
@@ -518,7 +560,7 @@ def _fold_with_hook(folder, node, env, hook):
                 pass
         return orig(n, e)
     if getattr(folder, "_hooked", None) is hook:
-        return folder.expr(node, env)     # already hooked by an enclosing fold (inlined callee)
+        return folder.expr(node, env)
     folder.expr = expr
     folder._hooked = hook
     try:
@@ -526,3 +568,11 @@ def _fold_with_hook(folder, node, env, hook):
     finally:
         folder.expr = orig
         folder._hooked = None
+
+
+def _as_load(t):
+    t2 = copy.deepcopy(t)
+    for n in ast.walk(t2):
+        if hasattr(n, "ctx"):
+            n.ctx = ast.Load()
+    return t2
